@@ -150,8 +150,23 @@ func c17Scenarios(c *fw.Ctx) []*Scenario {
 	// (S) sum over 2 and 3 files, (E) diff and copy: the command's own goroutines are scheduler threads
 	mkWorld := func() {
 		os.RemoveAll(root)
+		// order-sensitive inputs: the three files carry different aggregation methods / xFilesFactors (sum reports the
+		// first file's header) and magnitudes whose float64 sum depends on the order of addition
 		for f, n := range []string{"a.wsp", "b.wsp", "c.wsp"} {
-			(&BFile{L: l, Rings: c17Rings(l, f)}).Write(filepath.Join(root, "s", "it", "x", n))
+			lf := l
+			lf.Method, lf.XFF = []uint32{2, 1, 3}[f], []float32{0, 0.5, 1}[f]
+			r := c17Rings(l, f)
+			for i := range r {
+				for cls, sl := range r[i] {
+					if f == 0 {
+						sl.V = 1e16
+					} else {
+						sl.V = 1
+					}
+					r[i][cls] = sl
+				}
+			}
+			(&BFile{L: lf, Rings: r}).Write(filepath.Join(root, "s", "it", "x", n))
 		}
 		(&BFile{L: l, Rings: c17Rings(l, 0)}).Write(filepath.Join(root, "s", "a.wsp"))
 		(&BFile{L: l, Rings: c17Rings(l, 1)}).Write(filepath.Join(root, "d", "a.wsp"))
@@ -231,9 +246,15 @@ func c17Scenarios(c *fw.Ctx) []*Scenario {
 		"view-raw-b": q("/view-raw", "file", "b.wsp", "retention", "-1"),
 		"sum-y":      q("/sum", "item", "it.y", "pattern", "*.wsp", "retention", "0", "from", ts(c17Now-5), "until", ts(c17Now), "now", ts(c17Now)),
 		"files-it":   q("/files", "pattern", "it/*/*.wsp"),
-		"sum":        q("/sum", "item", "it.x", "pattern", "*.wsp", "retention", "-1", "from", ts(0), "until", ts(c17Now), "now", ts(c17Now)),
-		"items":      q("/items", "pattern", "it/*"),
-		"files":      q("/files", "pattern", "*.wsp"),
+		// requests that fail, each in its own way
+		"view-bad-int": q("/view", "file", "a.wsp", "retention", "bad0", "from", ts(0), "until", ts(c17Now), "now", ts(c17Now)),
+		"view-oor":     q("/view", "file", "a.wsp", "retention", "9", "from", ts(0), "until", ts(c17Now), "now", ts(c17Now)),
+		"view-bad-ts":  q("/view", "file", "b.wsp", "retention", "0", "from", "yesterday", "until", ts(c17Now), "now", ts(c17Now)),
+		"sum-oor":      q("/sum", "item", "it.x", "pattern", "*.wsp", "retention", "9", "from", ts(0), "until", ts(c17Now), "now", ts(c17Now)),
+		"sum-bad-int":  q("/sum", "item", "it.x", "pattern", "*.wsp", "retention", "x", "from", ts(0), "until", ts(c17Now), "now", ts(c17Now)),
+		"sum":          q("/sum", "item", "it.x", "pattern", "*.wsp", "retention", "-1", "from", ts(0), "until", ts(c17Now), "now", ts(c17Now)),
+		"items":        q("/items", "pattern", "it/*"),
+		"files":        q("/files", "pattern", "*.wsp"),
 	}
 	type hobs struct {
 		code int
@@ -255,14 +276,18 @@ func c17Scenarios(c *fw.Ctx) []*Scenario {
 		os.RemoveAll(hroot)
 		(&BFile{L: l, Rings: c17Rings(l, 0)}).Write(filepath.Join(hroot, "a.wsp"))
 		(&BFile{L: l, Rings: c17Rings(l, 1)}).Write(filepath.Join(hroot, "b.wsp"))
-		(&BFile{L: l, Rings: c17Rings(l, 0)}).Write(filepath.Join(hroot, "it", "x", "a.wsp"))
-		(&BFile{L: l, Rings: c17Rings(l, 2)}).Write(filepath.Join(hroot, "it", "x", "b.wsp"))
+		la, lb := l, l
+		la.Method, la.XFF = 2, 0
+		lb.Method, lb.XFF = 1, 0.5 // the two files of the item differ in their headers: /sum reports the first one's
+		(&BFile{L: la, Rings: c17Rings(l, 0)}).Write(filepath.Join(hroot, "it", "x", "a.wsp"))
+		(&BFile{L: lb, Rings: c17Rings(l, 2)}).Write(filepath.Join(hroot, "it", "x", "b.wsp"))
 		(&BFile{L: l, Rings: c17Rings(l, 3)}).Write(filepath.Join(hroot, "it", "y", "a.wsp"))
 		return true
 	}
 	combos := [][]string{{"view", "view"}, {"view", "view-raw"}, {"view", "sum"}, {"view", "view-b"}, {"view-raw", "sum"}, {"sum", "sum"}, {"items", "files"}, {"view", "items"}, {"view-raw", "files"}, {"view-raw", "view-raw"},
 		{"view-raw", "view-raw-b"}, {"sum", "sum-y"}, {"files", "files-it"}, {"view-b", "view-raw-b"},
-		{"view", "view-raw", "sum"}, {"view", "view-b", "items"}, {"view-raw", "view-raw-b", "view-b"}}
+		{"view-bad-int", "view-oor"}, {"view-bad-ts", "view-oor"}, {"sum-oor", "sum-bad-int"}, {"view-bad-int", "view"},
+		{"view", "view-raw", "sum"}, {"view", "view-b", "items"}, {"view-raw", "view-raw-b", "view-b"}, {"view-bad-int", "view-oor", "view-bad-ts"}}
 	solos := map[string]hobs{}
 	for _, combo := range combos {
 		combo := combo
@@ -273,7 +298,7 @@ func c17Scenarios(c *fw.Ctx) []*Scenario {
 		bound := b2
 		nsum := 0
 		for _, n := range combo {
-			if n == "sum" || n == "sum-y" {
+			if n == "sum" || n == "sum-y" || n == "sum-oor" {
 				nsum++ // a sum request brings two worker threads of its own
 			}
 		}
